@@ -120,6 +120,9 @@ Reply(i) ==
   /\ UNCHANGED <<now, up, fib, ints, nint, handled, ops>>
 
 Tick == now < MaxT /\ now' = now + 1 /\ UNCHANGED <<up, fib, ints, nint, handled, wire, rets, ops>>
+\* a longer stretch of time passes (an Interest without InterestLifetime is answerable for 4000 ms = 400 ticks)
+Jump(t) == /\ t > now + 1 /\ t <= MaxT /\ now' = t
+           /\ UNCHANGED <<up, fib, ints, nint, handled, wire, rets, ops>>
 \* the legacy front-end documents that every filter set dynamically is removed on disconnection
 Shutdown == /\ up /\ up' = FALSE
             /\ fib' = IF Front = "legacy" THEN [n \in Names |-> Free] ELSE fib
@@ -138,6 +141,7 @@ Next ==
   \/ \E i \in IntId, v \in Verdicts : IntValFinish(i, v)
   \/ \E i \in IntId : Reply(i)
   \/ Tick \/ Shutdown \/ Connect
+  \/ \E t \in 2..MaxT : Jump(t)
   \/ \E j \in Junk : RecvJunk(j)
 Spec == Init /\ [][Next]_vars
 
